@@ -1,0 +1,14 @@
+//go:build verif
+// +build verif
+
+package keystore
+
+// Read-only accessor for the verification harness (/verif, properties C03, C05).
+// Add-only; compiled only with the build tag "verif".
+
+// VerifSaltZero reports whether the manager's privPassphraseSalt is all zero.
+func (a *AddrManager) VerifSaltZero() bool {
+	a.mu.Lock()
+	defer a.mu.Unlock()
+	return allZero(a.privPassphraseSalt[:])
+}
